@@ -1636,6 +1636,38 @@ impl<'a> Runner<'a> {
                 }
                 what
             }
+            8 => {
+                // verifier-chosen predicate thresholds that put the difference to the credential's value just below a perfect
+                // square above 2^24 (where a single-precision square root is off by one) or at the ends of the 32-bit range
+                let sub = k / API_KINDS;
+                let roots: [i64; 5] = [4097, 5793, 10000, 40000, 46340];
+                let age: i64 = 28;
+                let (ptype, thr): (&str, i64) = match sub % 12 {
+                    n @ 0..=4 => ("GE", age - (roots[n] * roots[n] - 1)),
+                    n @ 5..=9 => ("LE", age + (roots[n - 5] * roots[n - 5] - 1)),
+                    10 => ("GE", i32::MIN as i64),
+                    _ => ("LE", i32::MAX as i64),
+                };
+                let spec = ReqSpec { revealed: vec!["name".into()], predicates: vec![PredSpec { attr: "age".into(), ptype: ptype.into(), value: thr as i32 }] };
+                let what = format!("request predicate age {} {} (credential value {})", ptype, thr, age);
+                if let Ok(req) = spec.build() {
+                    let (reg, wit) = (Some(&w.reg_at_issue), Some(&w.witness));
+                    if let Ok(mut pb) = Prover::new_proof_builder() {
+                        let _ = pb.add_common_attribute("master_secret");
+                        let a = self.wd.call("ProofBuilder::add_sub_proof_request", || pb.add_sub_proof_request(&req, &cd.schema, &cd.non_schema, &w.sig, &w.all_vals, &cd.pk, reg, wit));
+                        if a.is_ok() {
+                            if let Some(proof) = self.wd.call("ProofBuilder::finalize", || pb.finalize(&w.nonce_nr)).ok() {
+                                if let Ok(mut pv) = Verifier::new_proof_verifier() {
+                                    let _ = pv.add_common_attribute("master_secret");
+                                    let a = self.wd.call("ProofVerifier::add_sub_proof_request", || pv.add_sub_proof_request(&req, &cd.schema, &cd.non_schema, &cd.pk, Some(&w.rc.key_pub), reg));
+                                    if a.is_ok() { let _ = self.wd.call("ProofVerifier::verify", || pv.verify(&proof, &w.nonce_nr)); }
+                                }
+                            }
+                        }
+                    }
+                }
+                what
+            }
             _ => {
                 let (i, l, bd) = (*rng.pick(&WILD_IDX), pick_l(rng), rng.chance(1, 3));
                 let mut r = w.reg_at_issue.clone();
@@ -1658,7 +1690,7 @@ enum Plan {
 }
 
 const RAW_KINDS: usize = 12;
-const API_KINDS: usize = 8;
+const API_KINDS: usize = 9;
 
 /// the fixed part of the stream: every single structural mutation of every honest document in
 /// JSON text form, the regression inputs of repaired defects on every scalar / point leaf, the
@@ -1871,7 +1903,7 @@ fn batch(thorough: bool, rng: &mut Rng) -> Result<(), String> {
         sys.swap(i, srng.below(i as u64 + 1) as usize);
     }
     // the request grid (a dozen fixed API cases) runs in every tier: keep it at the front
-    sys.sort_by_key(|p| !matches!(p, Plan::Api(k) if k % API_KINDS == 7));
+    sys.sort_by_key(|p| !matches!(p, Plan::Api(k) if k % API_KINDS == 7 || k % API_KINDS == 8));
     if part == 0 && start == 0 {
         eprintln!("c20: world built in {} ms, {} honest documents, {} systematic cases, {} cases requested", t0.elapsed().as_millis(), w.bases.len(), sys.len(), count);
     }
